@@ -58,6 +58,10 @@ def run(v):
                     "c07_mc_dev", workers=2, timeout=600, coverage=False)
     if rd.violated != "NeverLosesExceptKnown":
         raise common.ToolError("MC_DictFile: the append-only deviation is not refuted (vacuous invariant)")
+    rt = common.tlc(os.path.join(SPEC, "mc", "MC_DictFile.tla"), os.path.join(SPEC, "mc", "MC_DictFile_dev_tempexcl.cfg"),
+                    "c07_mc_dev_temp", workers=2, timeout=600, coverage=False)
+    if rt.violated != "EveryFinishedAddSticks":
+        raise common.ToolError("MC_DictFile: the exclusive-temporary-file deviation is not refuted (vacuous invariant)")
     # the file-dictionary naming map: every name fits, different documents get different names; the code
     # before the repair (no shortening) and a seeded deviation (digest of the tail) must be refuted
     rn = common.tlc(os.path.join(SPEC, "mc", "MC_FileDictName.tla"), os.path.join(SPEC, "mc", "MC_FileDictName_quick.cfg"),
